@@ -1,6 +1,8 @@
 package pki
 
 import (
+	"crypto"
+	"crypto/ecdsa"
 	"crypto/rand"
 	"crypto/sha1"
 	"crypto/x509"
@@ -95,7 +97,7 @@ type Cert struct {
 	// Name (attribute order, RDN grouping and string types as written)
 	SubjectDER []byte
 	IssuerDER  []byte
-	SignedBy *Key    // override of the signing key (default: parent's key)
+	SignedBy   *Key // override of the signing key (default: parent's key)
 
 	Extra  []pkix.Extension
 	SigAlg x509.SignatureAlgorithm
@@ -478,7 +480,6 @@ func RelabelSignature(c *x509.Certificate) (*x509.Certificate, error) {
 	return x509.ParseCertificate(der)
 }
 
-
 // ATV is one attribute of a distinguished name: OID, value and the ASN.1
 // string tag it is written with (12 UTF8String, 19 PrintableString, 22 IA5String).
 type ATV struct {
@@ -561,4 +562,43 @@ func V1RootNamed(k *Key, name []byte) (*x509.Certificate, error) {
 		return nil, err
 	}
 	return x509.ParseCertificate(der)
+}
+
+// SignatureTwin returns a certificate with the very same TBSCertificate as c
+// and another, equally valid signature value: for ECDSA the pair (r, n-s).
+// Nil if c is not ECDSA-signed by a P-256/384/521 issuer key pub.
+func SignatureTwin(c *x509.Certificate, issuerPub crypto.PublicKey) *x509.Certificate {
+	pub, ok := issuerPub.(*ecdsa.PublicKey)
+	if !ok {
+		return nil
+	}
+	var sig struct{ R, S *big.Int }
+	if rest, err := asn1.Unmarshal(c.Signature, &sig); err != nil || len(rest) != 0 {
+		return nil
+	}
+	sig.S = new(big.Int).Sub(pub.Params().N, sig.S)
+	newSig, err := asn1.Marshal(sig)
+	if err != nil {
+		return nil
+	}
+	in := cryptobyte.String(c.Raw)
+	var outer, tbs, alg cryptobyte.String
+	if !in.ReadASN1(&outer, cbasn1.SEQUENCE) || !outer.ReadASN1Element(&tbs, cbasn1.SEQUENCE) || !outer.ReadASN1Element(&alg, cbasn1.SEQUENCE) {
+		return nil
+	}
+	var b cryptobyte.Builder
+	b.AddASN1(cbasn1.SEQUENCE, func(b *cryptobyte.Builder) {
+		b.AddBytes(tbs)
+		b.AddBytes(alg)
+		b.AddASN1BitString(newSig)
+	})
+	der, err := b.Bytes()
+	if err != nil {
+		return nil
+	}
+	twin, err := x509.ParseCertificate(der)
+	if err != nil {
+		return nil
+	}
+	return twin
 }
